@@ -17,7 +17,8 @@ LEVEL_TEXT = ('Every clause is a universally quantified theorem over the complet
 LEVEL_NOTE = ('Lean kernel; gen_periodic translator (evaluates the property bodies of the Element subclasses and parses the two '
               '.pyx literal tables); Spec/Iupac.lean written by hand; floats compared as micro-units.')
 TECHNIQUE = 'Lean 4 decide +kernel theorems over regenerated periodic-table data + exhaustive API correspondence'
-HAS_DRIVER = False
+HAS_DRIVER = True
+EXTRA_MODULES = ['Model.C18Atom']
 FINDINGS_MODULE = 'ChythonModel.Findings.C18'
 RULE = ('exhaustive: every Element subclass x every tabulated isotope x charge -4..4 x radical flag x every predicate '
         'of Props/C18.lean re-evaluated on the live classes through the public API; a case is non-trivial when it '
@@ -284,6 +285,67 @@ def outside_table_predicates():
             yield ('add-atom-number-outside-table-rejected', f'{cont.__name__}:{n}', ok)
 
 
+def lookup_strings():
+    import string
+    std = [s for _, s in iupac()]
+    U, L = string.ascii_uppercase, string.ascii_lowercase
+    return list(dict.fromkeys(std + [a for a in U] + [a + b for a in U for b in L] + [s.lower() for s in std] + [s.upper() for s in std] +
+                              ['D', 'T', '', '*', 'Uue', 'Uup', 'Element', 'Core', 'QueryC', 'DynamicC', 'A', 'M']))
+
+
+def model_correspondence(ctx, bits):
+    """executable Lean model (Drivers/C18.lean) against the real code: lookups on the whole probe domain, atom-object histories,
+    and the third matcher word of every grid state with the outcome of both acceptance tests."""
+    from chython.periodictable import Element
+    from ..core import run_driver
+
+    def look(f, v):
+        try:
+            c = f(v)
+            return f'{c.__name__} {c.atomic_number.fget(None)}'
+        except ValueError:
+            return 'none'
+        except Exception as e:
+            return 'raises ' + type(e).__name__
+    reqs, real, keys = [], [], []
+    for n in range(-260, 400):
+        reqs.append(f'NUM {n}')
+        real.append(look(Element.from_atomic_number, n))
+        keys.append(('model-lookup', f'from_atomic_number({n})'))
+    for s in lookup_strings():
+        reqs.append(f'SYM {s}'.rstrip())
+        real.append(look(Element.from_symbol, s))
+        keys.append(('model-lookup', f'from_symbol({s!r})'))
+    for z, sym in iupac():
+        try:
+            cls = Element.from_symbol(sym)
+            for name, ops in c18_state.model_histories(cls, ctx.rng, 4 if ctx.quick else 40, 18):
+                reqs.append(c18_state.hist_request(sym, ops))
+                real.append(c18_state.hist_real(cls, ops))
+                keys.append(('model-history', f'{sym}:{ops!r}'))
+        except Exception as e:
+            ctx.dist('model-history-skipped:' + type(e).__name__)
+    for key, req, rl in bits:
+        reqs.append(req)
+        real.append(rl)
+        keys.append(('model-matcher-word3', key))
+    got = run_driver('C18', reqs)
+    if len(got) != len(reqs):
+        ctx.broke('correspondence', 'driver', f'{len(got)} responses for {len(reqs)} requests')
+        return
+    ctx.cov['programs'] += 3  # _cython_compiled_structure, _cython_compiled_query (words read back), Element.copy
+    reported = set()
+    for (pred, key), req, rl, g in zip(keys, reqs, real, got):
+        ctx.count((pred, key))
+        ctx.dist(pred)
+        ok = c18_state.hist_agree(rl, g) if isinstance(rl, list) else rl == g
+        if not ok:
+            ctx.cov['disagreements_checked'] += 1
+        if not ok and pred not in reported:
+            reported.add(pred)
+            ctx.broke('correspondence', pred, f'{key}: request {req!r}: model {g!r}, real {rl!r}')
+
+
 def correspond(ctx):
     """Exhaustive evaluation on the live classes. A false predicate *is* a failing input for the property."""
     from chython.periodictable import Element
@@ -309,13 +371,18 @@ def correspond(ctx):
             ctx.dist('pack-matcher-skipped:' + type(e).__name__)
     # round 5: the property's quantifier taken literally (isotope x charge x radical of every element through both matchers) and
     # object histories (labelled / asked in any order) — see c18_state.py
+    bits = []
     for z, sym in iupac():
         try:
-            for pred, detail, ok in c18_state.state_grid_predicates(sym):
-                ctx.count((pred, detail.split(':expected=')[0]))
+            for x in c18_state.state_grid_cases(sym):
+                pred = 'matcher-state-grid'
+                key, detail, ok = c18_state.grid_detail(x)
+                ctx.count((pred, key))
                 ctx.dist(pred)
+                if x['qstate'] is not None:
+                    bits.append((key, c18_state.bits_request(x), c18_state.bits_real(x)))
                 if not ok:
-                    ctx.fail(f'C18/{pred}/{sym}', f'{pred} fails for {detail}', {'predicate': pred, 'symbol': sym, 'detail': detail.split(':expected=')[0]})
+                    ctx.fail(f'C18/{pred}/{sym}', f'{pred} fails for {detail}', {'predicate': pred, 'symbol': sym, 'detail': key})
             for pred, detail, ok, ops, n in c18_state.history_predicates(sym, ctx.rng):
                 ctx.count((pred, detail if ok else sym + repr(ops)), n=n)
                 ctx.dist(pred)
@@ -324,6 +391,8 @@ def correspond(ctx):
                     ctx.fail(f'C18/{pred}/{sym}', f'{pred} fails for {detail}', {'predicate': pred, 'symbol': sym, 'ops': ops, 'detail': detail})
         except Exception as e:  # the element itself is unreachable: already reported by the lookup predicates
             ctx.dist('state-history-skipped:' + type(e).__name__)
+    if ctx.build_ok:
+        model_correspondence(ctx, bits)
     for pred, detail, ok in field_grid_predicates():
         ctx.count((pred, detail))
         ctx.dist(pred)
